@@ -8,29 +8,70 @@ _CK = '_Z12checkKeywordRNSt7__cxx1112basic_stringIcSt11char_traitsIcESaIcEEE'
 _CN = '_Z20classNameFromCppNameRKNSt7__cxx1112basic_stringIcSt11char_traitsIcESaIcEEEb'
 _MN = '_Z21methodNameFromCppNameRKNSt7__cxx1112basic_stringIcSt11char_traitsIcESaIcEEES6_b'
 # concrete loops of the code under test: keyword table (34 entries), rename dictionary (56), badChars.find (23 chars)
-_NAME_LOOPS = {_CK + '.0': 40, _MN + '.0': 16, _MN + '.1': 60, _MN + '.2': 60, _CN + '.0': 16, _CN + '.1': 16,
-               'll_memchr.0': 26, 'll_strlen.0': 24, 'll_memcmp.0': 24, 'll_memcpy.0': 24}
+def _name_loops(lmax):
+    return {_CK + '.0': 40, _CN + '.0': lmax + 2, _CN + '.1': lmax + 2, '_ZL11well_formedPKcibPbS1_.0': lmax + 2,
+            _MN + '.0': lmax + 2, _MN + '.1': lmax + 2, _MN + '.2': 60, _MN + '.3': 60, 'll_memmove.0': 24, 'll_memmove.1': 24,
+            'll_memchr.0': 26, 'll_strlen.0': 24, 'll_memcmp.0': lmax + 3, 'll_memcpy.0': 24}
+# std::string growth beyond the 15-byte SSO buffer never happens for these names: cutting basic_string::_M_mutate turns
+# the (infeasible but symbolically explored) reallocation paths into an asserting stub the solver proves unreachable
+_MUTATE = '_ZNSt7__cxx1112basic_stringIcSt11char_traitsIcESaIcEE9_M_mutateEmmPKcm'
 
 HARNESSES = [
  {'id': 'c02_class_name', 'property': 'C02', 'src': 'c02_names.cxx', 'entry': 'harness_c02_class_name', 'tus': _IMN,
-  'models': ['printf.c'],
+  'models': ['printf.c'], 'cut': [_MUTATE],
   'desc': 'classNameFromCppName (class, enum value and constant names) on every well-formed scoped C++ name',
   'domain': 'names of length 1..LMAX over [A-Za-z0-9_: ] that are well-formed (components [A-Za-z_][A-Za-z0-9_]* joined by ::, single inner blanks); mangle flag and -nomangle symbolic',
   'oracle': 'equals the reference (:: -> ., camelCase fold of _/blank separated words when mangling, else the C++ name; keyword -> _keyword); valid dotted Python identifier (when folding: if every component has a word starting with a letter); never a Python keyword',
-  'bounds': {'quick': {'defs': {'LMAX': 3}, 'unwind': 9, 'unwindset': _NAME_LOOPS, 'cap': 150},
-             'thorough': {'defs': {'LMAX': 8}, 'unwind': 11, 'unwindset': _NAME_LOOPS, 'cap': 2400}}},
+  'bounds': {'quick': {'defs': {'LMAX': 5}, 'unwind': 40, 'unwindset': _name_loops(5), 'cap': 400},
+             'thorough': {'defs': {'LMAX': 8}, 'unwind': 40, 'unwindset': _name_loops(8), 'cap': 2400}}},
+ {'id': 'c02_method_name', 'property': 'C02', 'src': 'c02_names.cxx', 'entry': 'harness_c02_method_name', 'tus': _IMN,
+  'models': ['printf.c'], 'cut': [_MUTATE],
+  'desc': 'methodNameFromCppName (method, property and sequence names) on every well-formed C++ identifier',
+  'domain': 'names of length 1..LMAX over [A-Za-z0-9_ ] that are well-formed identifiers (optional __py__ prefix, single inner blanks); mangle flag and -nomangle symbolic',
+  'oracle': 'equals the reference (camelCase alias when mangling, else the C++ name; print -> Cprint and the __xxx__ names of the rename dictionary unchanged; keyword -> _keyword); valid Python identifier (when folding: if the first word starts with a letter); never a Python keyword',
+  'bounds': {'quick': {'defs': {'LMAX': 4}, 'unwind': 60, 'unwindset': _name_loops(4), 'cap': 300},
+             'thorough': {'defs': {'LMAX': 8}, 'unwind': 60, 'unwindset': _name_loops(8), 'cap': 2400}}},
  {'id': 'c02_remap_compare', 'property': 'C02', 'src': 'c02_remap.cxx', 'entry': 'harness_c02_remap_compare', 'tus': _IMN,
   'cut': ['_Z13get_type_sortP7CPPType'], 'cbmc_flags': _FS,
   'desc': 'RemapCompareLess (std::sort comparator of the overload sets) is a strict weak ordering',
   'domain': '3 FunctionRemaps with symbolic const flag, every combination of 0..2 parameters each (27 concrete combinations inside the query); get_type_sort replaced by an uninterpreted table (one symbolic int per parameter slot)',
   'oracle': 'irreflexive, asymmetric, transitive, incomparability transitive; non-const first, more parameters first, higher type sort first',
   'bounds': {'quick': {'defs': {'NREMAP': 3, 'PMAX': 2}, 'unwind': 40, 'cap': 300}}},
- {'id': 'c02_collapse_defaults', 'property': 'C02', 'src': 'c02_remap.cxx', 'entry': 'harness_c02_collapse_defaults', 'tus': _IMN,
+]
+for _id, _lo, _hi, _tiers in (('c02_keywords_a', 0, 12, ('quick', 'thorough')), ('c02_keywords_b', 12, 24, ('thorough',)), ('c02_keywords_c', 24, 34, ('thorough',))):
+    HARNESSES.append(
+ {'id': _id, 'property': 'C02', 'src': 'c02_names.cxx', 'entry': 'harness_c02_keywords', 'tus': _IMN, 'models': ['printf.c'], 'tiers': _tiers,
+  'desc': 'checkKeyword / classNameFromCppName / methodNameFromCppName on the Python keywords %d..%d of the list of 34' % (_lo, _hi - 1),
+  'domain': 'reserved words of Python 2 and 3 the generator lists (concrete loop; short keywords and all non-keywords are covered symbolically by c02_class_name / c02_method_name)',
+  'oracle': 'keyword -> _keyword for classes, constants and methods (print -> Cprint for methods)',
+  'bounds': {'quick': {'defs': {'KW_FROM': _lo, 'KW_TO': _hi}, 'unwind': 60, 'cap': 400}}})
+_OPDOM = 'operator names (concrete loop over the spellings cppparser produces); mangle=false (thorough: also mangle=true with and without -nomangle)'
+_OPORA = 'each operator maps to its Python special-method name (__eq__, __getitem__, __iadd__, __bool__ ...) or to the documented plain name (assign, increment ...); the result is a valid identifier'
+for _id, _lo, _hi, _hf in (('c02_operator_names_a', 0, 20, []), ('c02_operator_names_b', 20, 41, []), ('c02_operator_lshift', 0, 1, ['-DONLY_LSHIFT'])):
+    HARNESSES.append(
+ {'id': _id, 'property': 'C02', 'src': 'c02_names.cxx', 'entry': 'harness_c02_operator_names', 'tus': _IMN,
+  'models': ['printf.c'], 'hflags': _hf,
+  'desc': 'methodNameFromCppName on ' + ('operator <<' if _hf else 'every operator except << (entries %d..%d of the list)' % (_lo, _hi - 1)),
+  'domain': _OPDOM, 'oracle': _OPORA,
+  'bounds': {'quick': {'defs': {'OP_FROM': _lo, 'OP_TO': _hi, 'MODES': 1}, 'unwind': 60, 'cap': 400},
+             'thorough': {'defs': {'OP_FROM': _lo, 'OP_TO': _hi, 'MODES': 3}, 'unwind': 60, 'cap': 2400}}})
+HARNESSES += [
+]
+for _id, _q, _t in (('c02_collapse_a', (0, 1), (0, 1)), ('c02_collapse_b', (1, 2), (1, 2)), ('c02_collapse_c', (2, 7), (2, 3)),
+                    ('c02_collapse_d', None, (3, 4)), ('c02_collapse_e', None, (4, 6)), ('c02_collapse_f', None, (6, 11))):
+    _b = {}
+    if _q:
+        _b['quick'] = {'defs': {'AMAX': 2, 'OPT_FROM': _q[0], 'OPT_TO': _q[1]}, 'unwind': 150, 'cap': 400}
+    _b['thorough'] = {'defs': {'AMAX': 3, 'OPT_FROM': _t[0], 'OPT_TO': _t[1]}, 'unwind': 300, 'cap': 2400}
+    HARNESSES.append(
+ {'id': _id, 'property': 'C02', 'src': 'c02_remap.cxx', 'entry': 'harness_c02_collapse_defaults', 'tus': _IMN,
   'cut': ['_Z13get_type_sortP7CPPType'], 'cbmc_flags': _FS, 'nonterm_is_violation': True,
-  'desc': 'collapse_default_remaps on every overload table of 3 overloads with argument-count ranges within 0..AMAX',
-  'domain': 'every multiset of 3 overloads, each absent or accepting a contiguous range of argument counts in 0..AMAX (enumerated, map_sets built as write_function_for_name does)',
-  'oracle': 'at least one arity kept, largest arity kept, returned minimum within the arities; every argument count selects at most one overload set; an overload that accepted n arguments is in the set consulted for n; no overload invented',
-  'bounds': {'quick': {'defs': {'AMAX': 2, 'OPT_FROM': 0, 'OPT_TO': 1}, 'unwind': 40, 'cap': 200}}},
+  'tiers': ('quick', 'thorough') if _q else ('thorough',),
+  'desc': 'collapse_default_remaps on every overload table of 3 overloads with argument-count ranges within 0..AMAX (slice of the enumeration)',
+  'domain': 'every multiset of 3 overloads, each absent or accepting a contiguous range of argument counts in 0..AMAX (enumerated by concrete loops; map_sets built as write_function_for_name does); first overload option in [OPT_FROM, OPT_TO)',
+  'oracle': 'at least one arity kept, largest arity kept, returned minimum within the arities; every argument count selects at most one overload set; an overload that accepted n arguments is in the set consulted for n; no overload invented; termination',
+  'bounds': _b})
+HARNESSES += [
 ]
 
 PROPERTY_INFO = {'C02': {'level': 'model_checking',
